@@ -271,7 +271,7 @@ def check_state_preparation(idx: Index, rep: Report, tier: str):
     vectors = [[0.6, 0.8], [0.6, -0.8j], [0, 1], [1, 0], [s2, s2 * 1j],
                [1, 0, 1j, 0], [0.5, 0.5j, -0.5, 0.5], [0, 0, 0, 1], [0, 1, 0, 0], [s2, 0, 0, -s2], [0.5, 0.5, 0.5, 0.5], [s3, 0, s3 * 1j, -s3], [0, s2, s2 * cmath.exp(0.3j), 0],
                [1, 0, 0, 0, 0, 0, 0, 1j], [0.5, 0, 0.5j, 0, -0.5, 0, 0, 0.5], [1, 1j, -1, -1j, 1, 1, 1, 1], [0, 0, 0, 0, 0, 1, 0, 0], [1, 0, 1j, 0, -1, 0, -1j, 0], [2, 1, 0, 1j, 0, 0, 3, -1],
-               # relative phases of a peeling level that are non-zero but cancel in sum / in mean (seeded C20-8: a multiplexor skipped on `sum(angles) == 0`)
+               # relative phases of a peeling level that are non-zero but cancel in sum / in mean (seeded C20-10: a multiplexor skipped on `sum(angles) == 0`)
                [1, -1, -1, 1], [1, 1j, 1, -1j], [1, cmath.exp(0.3j), 1, cmath.exp(-0.3j)], [0, cmath.exp(0.3j), cmath.exp(-0.3j), 0],
                [1, cmath.exp(0.3j), 1, cmath.exp(-0.3j), 1, cmath.exp(0.5j), 1, cmath.exp(-0.5j)], [1, 1, 1, 1, 1, -1, -1, 1]]
     if tier == "thorough":
